@@ -31,7 +31,7 @@ FUNCTIONS = {
     'C16': [(RR, TR + m) for m in ('addError', 'addFailure', 'addUnexpectedSuccess', 'addSubTest')]
            + [PROTOCOL, RUN_TESTS, RUNNER_LOOP],
     'C19': [(RR, TR + 'startTest'), (RR, TR + 'addSkip'), (RR, TR + 'stopTest'), ('threads_c19', 'threadsupport.enumerate')],
-    'C17': [('formatter_c17', 'formatter.XMLOutputFormattingWrapper._record')],
+    'C17': [('formatter_c17', 'formatter.XMLOutputFormattingWrapper._record'), ('formatter_c17', 'formatter.parse_unittest')],
     'C18': [('features_c18', f) for f in (
         'garbagecollection.Threshold.global_setup', 'garbagecollection.Threshold.global_teardown',
         'garbagecollection.Debug.global_setup', 'garbagecollection.Debug.global_teardown',
